@@ -9,7 +9,7 @@ import z3
 
 from . import core, smt
 from .smt import (
-    B, CLASSES, CONTRACTS, Contract, EngineError, FRESH, I, S, SV, Schema, SeqV, VC, VBool, VInt, VNone,
+    B, CLASSES, CONTRACTS, Contract, EngineError, FRESH, I, PSeq, S, SV, Schema, SeqV, VC, VBool, VInt, VNone,
     VRef, VStr, Val, bval, cls_of, fresh, is_bool, is_int, is_none, is_ref, is_str, ival,
     lookup_field_type, mk_bool, mk_int, mk_none, mk_py, mk_ref, mk_seq, mk_str, mk_tuple, rval, sval,
 )
@@ -145,6 +145,11 @@ class Engine(FuncVerifier):
     def st_Expr(self, s, st):
         if isinstance(s.value, ast.Constant):
             return [(NORMAL, st, None)]
+        if isinstance(s.value, ast.Yield):
+            def go(x):
+                v = self.ev(s.value.value, x) if s.value.value is not None else mk_none()
+                x.locals["__yield"] = mk_seq(x.locals["__yield"].items.append(self.to_val(x, v)))
+            return self.simple(st, go)
         return self.simple(st, lambda x: self.ev(s.value, x))
 
     def st_Assign(self, s, st):
@@ -210,12 +215,13 @@ class Engine(FuncVerifier):
                     self.assign(st, t, x, node)
                 return
             if v.kind == "ref" and v.ty and v.ty[0] in ("tuple", "list"):
-                seq = st.heap.L[rval(v.v)]
-                self.oblige(st, z3.Length(seq) == len(target.elts), "rte-ValueError", node, "unpack")
-                st.assume(z3.Length(seq) == len(target.elts))
+                seq = st.heap.lseq(rval(v.v))
+                self.oblige(st, seq.n == len(target.elts), "rte-ValueError", node, "unpack")
+                st.assume(seq.n == len(target.elts))
                 for k, t in enumerate(target.elts):
                     ety = v.ty[1][k] if v.ty[0] == "tuple" else v.ty[1]
-                    self.assign(st, t, self.assume_type(st, seq[k], ety), node)
+                    st.ld_elem(rval(v.v), z3.IntVal(k))
+                    self.assign(st, t, self.assume_type(st, seq.at(k), ety), node)
                 return
             raise EngineError(f"unpack of {v} at line {node.lineno}")
         if isinstance(target, ast.Subscript):
@@ -234,15 +240,15 @@ class Engine(FuncVerifier):
                 return
             if base.kind == "ref" and base.ty and base.ty[0] == "list":
                 self.need_kind(st, idx, "int", node)
-                seq = st.heap.L[r]
-                n = z3.Length(seq)
+                seq = st.heap.lseq(r)
+                n = seq.n
                 i = self.norm_index(ival(idx.v), n)
                 self.oblige(st, z3.And(i >= 0, i < n), "rte-IndexError", node, "store")
                 st.assume(z3.And(i >= 0, i < n))
                 t = self.to_val(st, v)
                 self.check_elem(st, t, base.ty[1], node)
-                new = z3.Concat(z3.Extract(seq, 0, i), z3.Unit(t), z3.Extract(seq, i + 1, n - i - 1))
-                st.heap.L = z3.Store(st.heap.L, r, new)
+                st.reg(i)
+                st.heap.set_lseq(r, seq.set_at(i, t))
                 return
             raise EngineError(f"subscript store on {base} at line {node.lineno}")
         raise EngineError(f"assignment target {type(target).__name__}")
@@ -255,12 +261,17 @@ class Engine(FuncVerifier):
                     idx = self.ev(t.slice, x)
                     if base.kind == "ref" and base.ty and base.ty[0] == "list":
                         r = x.regref(rval(base.v))
-                        seq = x.heap.L[r]
-                        n = z3.Length(seq)
+                        seq = x.heap.lseq(r)
+                        n = seq.n
                         i = self.norm_index(ival(idx.v), n)
                         self.oblige(x, z3.And(i >= 0, i < n), "rte-IndexError", s, "del")
                         x.assume(z3.And(i >= 0, i < n))
-                        x.heap.L = z3.Store(x.heap.L, r, z3.Concat(z3.Extract(seq, 0, i), z3.Extract(seq, i + 1, n - i - 1)))
+                        if z3.is_true(z3.simplify(i == n - 1)):
+                            x.heap.set_lseq(r, PSeq(seq.arr, n - 1))
+                        else:
+                            left = self.seq_slice(x, seq, z3.IntVal(0), i)
+                            right = self.seq_slice(x, seq, i + 1, n - i - 1)
+                            x.heap.set_lseq(r, self.seq_concat(x, left, right))
                         continue
                 raise EngineError("del of unsupported target")
         return self.simple(st, go)
@@ -433,6 +444,8 @@ class Engine(FuncVerifier):
 
     def assigned_names(self, body: List[ast.stmt]) -> List[str]:
         out = []
+        if any(isinstance(n, ast.Yield) for st in body for n in ast.walk(st)):
+            out.append("__yield")
         for st in body:
             for n in ast.walk(st):
                 if isinstance(n, ast.Name) and isinstance(n.ctx, ast.Store) and n.id not in out:
@@ -452,6 +465,14 @@ class Engine(FuncVerifier):
             nv = fresh("lv!" + name, Val)
             if cur.kind == "tuple":
                 raise EngineError("loop modifies a tuple-valued local")
+            if cur.kind == "seq":
+                fr = st
+                while fr is not None and name not in fr.locals:
+                    fr = fr.parent
+                nn = fresh("lvn!" + name, I)
+                st.pc.append(nn >= 0)
+                fr.locals[name] = mk_seq(PSeq(fresh("lv!" + name, smt.ArrV), nn))
+                continue
             ty = lc.get("types", {}).get(name)
             ty = smt.parse_ty(ty) if ty else cur.ty
             fr = st
@@ -464,6 +485,7 @@ class Engine(FuncVerifier):
         ctx = self.spec_view(st, dict(self._all_locals(st)), None)
         for loc in mods:
             self.havoc_loc(st, loc, ctx)
+        st.snap()
 
     def _all_locals(self, st):
         chain = []
@@ -685,16 +707,19 @@ class Engine(FuncVerifier):
             s_ = sval(v.v)
             return z3.Length(s_), (lambda b, i: mk_str(z3.SubString(s_, i, 1))), None
         if v.kind == "ref" and v.ty and v.ty[0] == "list":
-            seq = st.heap.L[st.regref(rval(v.v))]  # snapshot: the list must not change during iteration
+            seq = st.heap.lseq(st.regref(rval(v.v)))  # snapshot: the list must not change during iteration
             ety = v.ty[1]
 
-            def at(b, i, seq=seq, ety=ety):
+            robj = rval(v.v)
+
+            def at(b, i, seq=seq, ety=ety, robj=robj):
                 b.reg(i)
-                t = seq[i]
+                b.ld_elem(robj, i)
+                t = seq.at(i)
                 x = self.assume_type(b, t, ety)
                 b.assume(z3.Implies(is_ref(t), rval(t) < b.heap.A))
                 return x
-            return z3.Length(seq), at, None
+            return seq.n, at, None
         raise EngineError(f"iteration over {v} at line {loopnode.lineno}")
 
     def st_Break(self, s, st):
@@ -708,6 +733,7 @@ class Engine(FuncVerifier):
         fn: ast.FunctionDef = fv.py
         frame = State()
         frame.heap, frame.pc, frame.schemas, frame.idx, frame.ctx = st.heap, st.pc, st.schemas, st.idx, st.ctx
+        frame.events, frame.loads = st.events, st.loads
         frame.parent = st
         frame.old = st.old
         frame.decisions = st.decisions
@@ -750,6 +776,7 @@ class Engine(FuncVerifier):
             t = z3.Const(f"p!{p}", Val)
             st.locals[p] = self.assume_type(st, t, ty)
             st.pc.append(z3.Implies(is_ref(t), z3.And(rval(t) >= 0, rval(t) < st.heap.A)))
+        st.snap()
         self.entry = self.snapshot(st, st.locals)
         view = self.spec_view(st, st.locals, None)
         for clause in con.requires:
@@ -761,6 +788,9 @@ class Engine(FuncVerifier):
         if not self.feasible(st):
             raise EngineError(f"precondition of {con.name} is unsatisfiable (vacuous contract)")
         self.entry = self.snapshot(st, st.locals)
+        self.is_generator = any(isinstance(n, (ast.Yield, ast.YieldFrom)) for n in ast.walk(fn))
+        if self.is_generator:
+            st.locals["__yield"] = mk_seq(PSeq.empty())
         body = fn.body
         if con.body_slice is not None:
             body = [b for b in body if not (isinstance(b, ast.Expr) and isinstance(b.value, ast.Constant))]
@@ -771,6 +801,8 @@ class Engine(FuncVerifier):
                 kind, val = RETURN, mk_none()
             if kind == RETURN:
                 self.n_paths += 1
+                if self.is_generator:
+                    val = s2.locals["__yield"]
                 self.check_exit(s2, val)
             elif kind == RAISE:
                 if val not in con.raises and "*" not in con.raises:
@@ -854,9 +886,12 @@ class Engine(FuncVerifier):
                 continue
             hyp = base + [r0 != o for o in decl_fields.get(f, [])]
             self.oblige(st, z3.Implies(z3.And(hyp), arr[r0] == old[r0]), "frame", None, f"field-{f}")
-        if not all_lists and not st.heap.L.eq(e.heap.L):
+        if not all_lists and not (st.heap.LA.eq(e.heap.LA) and st.heap.LN.eq(e.heap.LN)):
             hyp = base + [r0 != o for o in decl_lists]
-            self.oblige(st, z3.Implies(z3.And(hyp), st.heap.L[r0] == e.heap.L[r0]), "frame", None, "lists")
+            k0 = fresh("fk", I)
+            same_elems = z3.Implies(z3.And(k0 >= 0, k0 < e.heap.LN[r0]), st.heap.LA[r0][k0] == e.heap.LA[r0][k0])
+            self.oblige(st, z3.Implies(z3.And(hyp), z3.And(st.heap.LN[r0] == e.heap.LN[r0], same_elems)),
+                        "frame", None, "lists")
         if not all_dicts and (not st.heap.DK.eq(e.heap.DK) or not st.heap.DV.eq(e.heap.DV)):
             hyp = base + [r0 != o for o in decl_dicts]
             self.oblige(st, z3.Implies(z3.And(hyp), z3.And(st.heap.DK[r0] == e.heap.DK[r0], st.heap.DV[r0] == e.heap.DV[r0])),
